@@ -234,6 +234,42 @@ fn gen<'a>(guests: &'a [Guest], thorough: bool) -> impl Fn(&mut EnumCtx) + Sync 
                 _ => {}
             }
         }
+        // ---- instruction fetch after a permission CHANGE (seed C09j: a fetch path that remembers the
+        // area it last fetched from): one step under mask m1, mem_prot to m2, one more step in the same
+        // area - the second fetch obeys m2 whatever happened under m1; in a separate area and in the
+        // constructor's own code area
+        for kind in 0..2u32 {
+            for m1 in 0..8u32 {
+                for m2 in 0..8u32 {
+                    if !e.next() {
+                        continue;
+                    }
+                    e.describe("fetch-after-prot", &format!("{} -> {} kind {kind}", mask_name(m1), mask_name(m2)));
+                    let mut ax = machine(&[0x90, 0x90, 0x90, 0x90], 3, 3);
+                    let at = if kind == 0 {
+                        ax.mem_init_area(0x70_0000, vec![0x90u8; 0x20]).unwrap();
+                        ax.reg_write_64(SR::RIP, 0x70_0000).unwrap();
+                        0x70_0000
+                    } else {
+                        CODE_AT
+                    };
+                    ax.mem_prot(at, m1).unwrap();
+                    let first = crate::emu::step(&mut ax);
+                    ax.mem_prot(at, m2).unwrap();
+                    let out = crate::emu::step(&mut ax);
+                    let allowed = m2 & 4 != 0;
+                    e.outcome(crate::common::fnv64(format!("fap{kind}{m1}{m2}{}{}", first.class(), out.class()).as_bytes()));
+                    e.state(20_000 + (kind * 64 + m1 * 8 + m2) as u64);
+                    let w = || json!({"kind": kind, "m1": m1, "m2": m2});
+                    match out {
+                        StepOut::Panic(p) => e.finding(&format!("perm|fetch-after-prot|panic@{}", p.tag()), || format!("fetch after mem_prot {} -> {} panicked", mask_name(m1), mask_name(m2)), w),
+                        StepOut::Ok(_) if !allowed => e.finding("perm|fetch-after-prot|fetch-without-X", || format!("after one step under mask {} and mem_prot to {}, the next instruction of the same area was still fetched and executed", mask_name(m1), mask_name(m2)), w),
+                        StepOut::Err(er) if allowed => e.finding("perm|fetch-after-prot|denied-with-permission", || format!("after one step under mask {} and mem_prot to {}, the fetch failed: {}", mask_name(m1), mask_name(m2), crate::emu::first_line(&er)), w),
+                        _ => {}
+                    }
+                }
+            }
+        }
         // ---- every memory-touching form x 8 masks on the data area x {rw, each mask} on the stack
         for (gi, g) in guests.iter().enumerate() {
             // baseline with full permissions: forms that fail for other reasons are C06's
